@@ -114,6 +114,11 @@ REPO_PROPS = {'C05', 'C03', 'C04', 'C06', 'C10', 'C13'}
 
 
 def run_C11(rep, g):
+    if g.d.get('custom') is None and any(x['kind'] == 'with' for x in g.d['sanitizers']):
+        # "custom ones declared idempotent": the declaration's author vouches for the pipeline *as declared*; what remains to
+        # decide is that the generated pipeline is that one (same steps, same order) - the R-SAN clause of the constructor
+        rules.check_ctor(rep, g)
+        return
     rules.check_canonical(rep, g)
 
 
